@@ -79,8 +79,18 @@ pub enum Op {
     DropTask { task: Slot },
     // ---- #[trace] twins
     Twin { f: u8, arg: u32, traced: bool },
-    /// a tracing call issued from a thread-local destructor while the thread is being torn down
+    /// tracing calls issued from a thread-local destructor while the thread is being torn down;
+    /// early = the destructor is registered before fastrace's own thread-locals (runs after them)
     TeardownCalls { early: bool },
+    /// ends the innermost scope (guard or collector) of the thread although local spans entered in
+    /// it are still open; their handles stay alive and are dropped later (they are dead by then)
+    Collect { into: Option<Slot> },
+    /// a panic unwinding through a local-parent scope with an open local span (caught by the host)
+    UnwindScope { slot: Slot },
+    /// enters and exits n local spans one after another (scope span limit)
+    LocalBurst { n: u32 },
+    /// opens n nested local-parent scopes of the span and closes them again (scope stack limit)
+    ScopeBurst { slot: Slot, n: u32 },
 }
 
 #[derive(Clone, Debug, Serialize, Deserialize, PartialEq)]
